@@ -51,6 +51,11 @@ pub fn gen_meta(rng: &mut Rng) -> Vec<u8> {
 
 /// degrees: multiples of 1e-7, half-step ties and their neighbours, ordinary values, extremes
 pub fn gen_coord(rng: &mut Rng) -> f64 {
+    if rng.below(12) == 0 {
+        // around and below the resolution of 1e-7 degrees
+        let v = [4.9e-8, 5e-8, 5.1e-8, 6e-8, 9.9e-8, 1e-7, 1.4e-7, 1.5e-7, 1.6e-7, 1e-9, 1e-300][rng.below(11) as usize];
+        return if rng.chance(1, 2) { v } else { -v };
+    }
     match rng.below(10) {
         0 => 0.0,
         1 => [180.0, -180.0, 90.0, -90.0, 85.0511287, -85.0511287][rng.below(6) as usize],
@@ -288,6 +293,7 @@ pub struct ForeignOpts {
     pub empty_meta: bool,
     pub merge_runs: bool,
     pub unknown_counts: bool, // header counters left 0 ("unknown" per the specification)
+    pub multi_frame: bool,    // zstd sections written as several concatenated frames
 }
 
 pub fn gen_foreign(rng: &mut Rng, o: &ForeignOpts, st: &mut Stats) -> Foreign {
@@ -322,12 +328,17 @@ pub fn gen_foreign(rng: &mut Rng, o: &ForeignOpts, st: &mut Stats) -> Foreign {
             }
         }
         for (id, k) in &choice {
-            let (mut off, len) = place[k];
+            let (mut off, mut len) = place[k];
             if rng.chance(1, 10) {
                 // a second stored copy of the same content
                 off = data.len() as u64;
                 data.extend_from_slice(&pool[*k]);
                 st.bump("foreign_duplicate_copy");
+            } else if len > 1 && rng.chance(1, 8) {
+                // a prefix back-reference: same offset as another tile's content, shorter length
+                len = 1 + rng.below(u64::from(len) - 1) as u32;
+                tiles.insert(*id, pool[*k][..len as usize].to_vec());
+                st.bump("foreign_prefix_reference");
             }
             per_tile.push((*id, off, len));
         }
@@ -375,7 +386,7 @@ pub fn gen_foreign(rng: &mut Rng, o: &ForeignOpts, st: &mut Stats) -> Foreign {
         while i < level.len() {
             let k = (rng.range(1, (level.len() as u64 / 3).max(2)) as usize).min(level.len() - i);
             let chunk = &level[i..i + k];
-            blobs.push((chunk[0].id, spec::codec_compress(o.icomp, &spec::encode_dir(chunk))));
+            blobs.push((chunk[0].id, if o.multi_frame { spec::codec_compress_frames(o.icomp, &spec::encode_dir(chunk)) } else { spec::codec_compress(o.icomp, &spec::encode_dir(chunk)) }));
             if d == 0 {
                 leaf_first_ids.push(chunk[0].id);
             }
@@ -400,9 +411,9 @@ pub fn gen_foreign(rng: &mut Rng, o: &ForeignOpts, st: &mut Stats) -> Foreign {
         level = ptrs;
         depth = d + 1;
     }
-    let root = spec::codec_compress(o.icomp, &spec::encode_dir(&level));
+    let root = if o.multi_frame { spec::codec_compress_frames(o.icomp, &spec::encode_dir(&level)) } else { spec::codec_compress(o.icomp, &spec::encode_dir(&level)) };
     let meta_text = if o.empty_meta { b"{}".to_vec() } else { gen_meta(rng) };
-    let meta_sec = if o.empty_meta { Vec::new() } else { spec::codec_compress(o.icomp, &meta_text) };
+    let meta_sec = if o.empty_meta { Vec::new() } else if o.multi_frame { spec::codec_compress_frames(o.icomp, &meta_text) } else { spec::codec_compress(o.icomp, &meta_text) };
     // section placement
     let mut file = vec![0u8; 127];
     let gap = |rng: &mut Rng, file: &mut Vec<u8>, on: bool| {
@@ -450,6 +461,9 @@ pub fn gen_foreign(rng: &mut Rng, o: &ForeignOpts, st: &mut Stats) -> Foreign {
     };
     file[0..127].copy_from_slice(&spec::encode_header(&h));
     st.bump(&format!("foreign_depth_{depth}"));
+    if o.multi_frame && o.icomp == 4 {
+        st.bump("foreign_multi_frame_zstd");
+    }
     if o.unknown_counts {
         st.bump("foreign_unknown_counts");
     }
@@ -474,5 +488,6 @@ pub fn foreign_opts(rng: &mut Rng, k: usize, quick: bool) -> ForeignOpts {
         empty_meta: rng.chance(1, 6),
         merge_runs: !rng.chance(1, 8),
         unknown_counts: rng.chance(1, 5),
+        multi_frame: rng.chance(1, 3),
     }
 }
